@@ -4,7 +4,7 @@ Generic rule used by every property: inside the functions a property is
 anchored in (and everything they reach) a value may only be remembered
 across calls if remembering it cannot change a later call's result.
 
-Three carriers of cross-call state are recognised, each with the condition
+Four carriers of cross-call state are recognised, each with the condition
 under which it is *harmful* (only then a finding is reported):
 
 * a **mutable default argument** - harmful when the function changes the
@@ -23,6 +23,9 @@ under which it is *harmful* (only then a finding is reported):
   hand-made cache need not cover the inputs, and its content outlives the
   call.  Aliases (``tab = TABLE; tab[k] = v``, ``cols = COLUMNS; cols +=
   extra``) are followed through the value terms.
+* a **class-level container written from a method** (``cache = {}`` in the
+  class body, ``self.cache[k] = v`` in a method, no per-instance
+  re-binding): the same, shared by all instances.
 """
 
 from __future__ import annotations
@@ -152,6 +155,76 @@ def module_state_writes(prog, func):
     return out
 
 
+def _class_level_mutables(cls):
+    """names bound in the class body to a mutable display and not re-bound
+    per instance (``self.name = ...`` in a method): one object shared by
+    every instance of the class, for the life of the process"""
+    if cls is None:
+        return set()
+    shared = set()
+    for st in cls.node.body:
+        tg = None
+        if isinstance(st, ast.Assign) and len(st.targets) == 1:
+            tg, val = st.targets[0], st.value
+        elif isinstance(st, ast.AnnAssign) and st.value is not None:
+            tg, val = st.target, st.value
+        if isinstance(tg, ast.Name) and _is_mutable_display(val):
+            shared.add(tg.id)
+    if not shared:
+        return shared
+    for m in cls.methods.values():
+        for n in ast.walk(m.node):
+            if isinstance(n, (ast.Assign, ast.AnnAssign)):
+                tgs = n.targets if isinstance(n, ast.Assign) else [n.target]
+                for t in tgs:
+                    for x in (t.elts if isinstance(
+                            t, (ast.Tuple, ast.List)) else [t]):
+                        if isinstance(x, ast.Attribute) and isinstance(
+                                x.value, ast.Name) and x.value.id == "self":
+                            shared.discard(x.attr)
+    return shared
+
+
+def class_state_writes(prog, func):
+    """In-place changes of a class-level mutable object from a method
+    (through ``self.X``, ``cls.X``, ``type(self).X`` or ``ClassName.X``):
+    [(attribute, node)]."""
+    out = []
+    if isinstance(func.node, ast.Lambda) or func.cls is None:
+        return out
+    shared = _class_level_mutables(func.cls)
+    if not shared:
+        return out
+    try:
+        _du, T, cfg = _analysis(prog, func)
+    except Exception:
+        return out
+    def spine_attrs(t, acc, seen):
+        if not isinstance(t, tuple) or not t or id(t) in seen:
+            return
+        seen.add(id(t))
+        if t[0] == "attr":
+            acc.append(t[2])
+        if t[0] in ("mutsub", "mut", "store", "augstore", "sub", "attr",
+                    "delitem") and len(t) > 1:
+            spine_attrs(t[1], acc, seen)
+        elif t[0] == "phi":
+            for a in t[1]:
+                spine_attrs(a, acc, seen)
+        elif t[0] == "ifexp":
+            spine_attrs(t[2], acc, seen)
+            spine_attrs(t[3], acc, seen)
+
+    for recv, node, _kind in _update_events(func, T, cfg):
+        acc = []
+        spine_attrs(recv, acc, set())
+        for a in acc:
+            if a in shared:
+                out.append((a, node))
+                break
+    return out
+
+
 def default_is_state(prog, func, pname):
     """Why the mutable default of ``pname`` is cross-call state, or None."""
     try:
@@ -271,6 +344,8 @@ def might_carry_state(prog, func):
         return False
     if mutable_defaults(func) or cache_decorators(func):
         return True
+    if func.cls is not None and _class_level_mutables(func.cls):
+        return True
     own = _mutable_globals(func.module)
     if not own:
         return False
@@ -299,6 +374,13 @@ def check_no_cross_call_state(ctx, rule, funcs, what):
                 ctx.fail(rule, f, f"@{d}",
                          f"results of {f.name} are cached across calls "
                          f"(@{d}) although {why}", node=f.node)
+        for a_, node in class_state_writes(prog, f):
+            ctx.fail(rule, f, f"class-level cache {a_}",
+                     f"{f.name} stores into '{a_}', an object created once "
+                     "in the class body and shared by every instance: a "
+                     f"later {what} in the same process (another file, "
+                     "another dataset) sees values computed for this one",
+                     node=node)
         for g, node in module_state_writes(prog, f):
             ctx.fail(rule, f, f"module-level cache {g}",
                      f"{f.name} stores into the module-level object '{g}': "
